@@ -14,19 +14,20 @@ import (
 )
 
 type RaceSched struct {
-	Sched  []string `json:"sched"`
-	Unsafe bool     `json:"unsafe"`
+	Sched   []string `json:"sched"`
+	Unsafe  bool     `json:"unsafe"`
+	Variant int      `json:"variant"` // use-case window: what the first process does (0 add, 1 set availability, 2 remove)
 }
 type RaceLine struct {
 	Mech     string      `json:"mech"`
 	Sched    []string    `json:"sched"`
 	Unsafe   bool        `json:"unsafe"` // the split model calls this interleaving unsafe
 	Realised bool        `json:"realised"`
-	Blocked  int         `json:"blocked"` // index of the step that could not be taken (-1 = none)
-	Effects  []string    `json:"effects"` // processes whose request took effect
-	Count    int         `json:"count"`   // bindings on the feature / features of the key / use cases present
-	Same     bool        `json:"same"`    // feature: both calls returned the same object
-	Distinct bool        `json:"distinct"`// feature numbers pairwise distinct
+	Blocked  int         `json:"blocked"`  // index of the step that could not be taken (-1 = none)
+	Effects  []string    `json:"effects"`  // processes whose request took effect
+	Count    int         `json:"count"`    // bindings on the feature / features of the key / use cases present
+	Same     bool        `json:"same"`     // feature: both calls returned the same object
+	Distinct bool        `json:"distinct"` // feature numbers pairwise distinct
 	Panic    string      `json:"panic"`
 	Hooks    []HookEvent `json:"hooks"`
 }
@@ -93,11 +94,21 @@ func runRace(topo *Topo, mech string, rs RaceSched) RaceLine {
 			})
 		}
 	case "usecase":
+		// entity 1 has a use case already; process A adds another one, or changes / removes that one (by schedule
+		// number); B and C add one on their own entities
+		s.lents["1"].AddUseCaseSupport("CEM", "ucB", "1.0.0", "release", true, []model.UseCaseScenarioSupportType{1})
 		for i, name := range []string{"A", "B", "C"} {
 			i := i
 			ent := s.lents[[]string{"1", "2", "1.1"}[i]]
 			sched.Add(name, []string{"UseCase.beforeStore"}, func() {
-				ent.AddUseCaseSupport("CEM", "ucA", "1.0.0", "release", true, []model.UseCaseScenarioSupportType{1})
+				switch {
+				case i == 0 && rs.Variant == 1:
+					ent.SetUseCaseAvailability("CEM", "ucB", false)
+				case i == 0 && rs.Variant == 2:
+					ent.RemoveUseCaseSupport("CEM", "ucB")
+				default:
+					ent.AddUseCaseSupport("CEM", "ucA", "1.0.0", "release", true, []model.UseCaseScenarioSupportType{1})
+				}
 			})
 		}
 	default:
@@ -113,6 +124,16 @@ func runRace(topo *Topo, mech string, rs RaceSched) RaceLine {
 	}
 	if !sched.Drain() {
 		line.Panic = "drain: a process did not finish"
+	}
+	// a schedule that could not be realised (the code is more atomic than the split model) may have left
+	// processes unstarted: they run now, one after the other, so that the final outcome is that of all of them
+	for _, name := range rs.Sched {
+		for p := sched.procs[name]; p != nil && !p.done; {
+			if _, ok := sched.Step(name); !ok {
+				line.Panic = "a process did not finish after the schedule"
+				break
+			}
+		}
 	}
 	for _, p := range sched.procs {
 		if p.panicV != "" {
@@ -175,10 +196,35 @@ func runRace(topo *Topo, mech string, rs RaceSched) RaceLine {
 			}
 		}
 	case "usecase":
+		// count = the processes whose change is in the registry at the end
 		st := s.project()
-		line.Count = len(st.Ucs)
-		for _, u := range st.Ucs {
-			line.Effects = append(line.Effects, u.E)
+		find := func(e, name string) *AbsUc {
+			for i := range st.Ucs {
+				if st.Ucs[i].E == e && st.Ucs[i].Name == name {
+					return &st.Ucs[i]
+				}
+			}
+			return nil
+		}
+		for i, name := range []string{"A", "B", "C"} {
+			if !used[name] {
+				continue
+			}
+			e := []string{"1", "2", "1.1"}[i]
+			pre := find("1", "ucB")
+			ok := find(e, "ucA") != nil
+			switch {
+			case i == 0 && rs.Variant == 1:
+				ok = pre != nil && !pre.Av
+			case i == 0 && rs.Variant == 2:
+				ok = pre == nil
+			case i == 0:
+				ok = ok && pre != nil && pre.Av
+			}
+			if ok {
+				line.Count++
+				line.Effects = append(line.Effects, e)
+			}
 		}
 	}
 	return line
